@@ -12,6 +12,7 @@ import ast
 
 from ..cfg import known_falsy, known_truthy
 from ..model import self_attr, unparse, walk_body_shallow
+from .util import *  # noqa: F401,F403
 from .util import (result_stored, deferred_origins, aliases_of, call_name, call_recv, calls_in, chains_in, kwarg, need, node_assign_value, norm,
                    real_suspension, registrations, returns_deferred, where)
 
@@ -135,7 +136,7 @@ def run(ctx):
             if call_name(x) == "stop" and call_recv(x) in {unparse(y.target) for y in ast.walk(stc.node) if isinstance(y, ast.For)}:
                 v = call_recv(x)
                 deps = sorted({norm(t.stmt.test) for t, lab in cstc.control_deps_transitive(n.id) if t.kind == "test" and not (
-                    chains_in(t.stmt.test) <= {"self", "self.consumers"})})
+                    chains_in(at(ctx, stc, t.id, t.stmt.test)) <= {"self", "self.consumers"})})
                 r.check(deps in ([], ["%s._start_d" % v], ["%s._start_d is not None" % v]), "%s#stops-every-started-consumer" % stc.qname,
                         "a consumer is stopped only under %s; every consumer whose start Deferred exists must be stopped" % deps, where(stc, x),
                         "a consumer whose start Deferred already fired with an error (rejected commit) keeps running after eviction: it "
@@ -279,7 +280,7 @@ def run(ctx):
         why = "no cancel()/stop() of self.%s in Coordinator.stop" % a
         for n in cancelled.get(a, []):
             for t, lab in cst.control_deps(n.id):
-                e = t.stmt.test if t.kind == "test" else t.stmt.iter
+                e = at(ctx, cstop, t.id, t.stmt.test if t.kind == "test" else t.stmt.iter)
                 foreign = [c for c in chains_in(e) if c != "self" and not (c == "self." + a or c.startswith("self." + a + "."))]
                 if foreign:
                     ok = False
